@@ -239,7 +239,7 @@ def strat_real(draw, tier):
 
 
 PARTS = [
-    Part("data_range", exec_case, strategy=strat, examples={"quick": 240, "thorough": 8000}, shards={"quick": 16, "thorough": 16},
+    Part("data_range", exec_case, strategy=strat, examples={"quick": 400, "thorough": 8000}, shards={"quick": 16, "thorough": 16},
          budget_s={"quick": 75, "thorough": 1500}, engine="serial for k=1, A for k>=2", describe="generated FITS pyramids, Builder.cascade + index_rel.wtml"),
     Part("tile_fits_toast", exec_tile_fits_toast, strategy=strat_tile_fits_toast, examples={"quick": 48, "thorough": 1500}, shards={"quick": 16, "thorough": 16},
          budget_s={"quick": 75, "thorough": 1500}, describe="FITS auto-tiling in TOAST mode of 1-3 images anywhere on the sky: ranges of every tile vs the sampled leaf tiles on disk; WTML and returned Builder vs the root"),
